@@ -44,7 +44,11 @@ func TestVerifReproC37TypedRDLengthPastEnd(t *testing.T) {
 
 	h, herr := p.AnswerHeader()
 	if herr != nil {
-		t.Fatal(herr)
+		// (after the repair in /repo the header method itself rejects the record: consistent with Unpack)
+		if uerr == nil {
+			t.Fatalf("AnswerHeader error = %v but Message.Unpack accepts the message", herr)
+		}
+		return
 	}
 	body, berr := p.AResource()
 	_, nerr := p.AnswerHeader()
